@@ -667,7 +667,7 @@ func main() {
 	r.Rule("Seeds: valid GGUF files written by the real WriteGGUF and by a harness encoder (v1, v2, v3, big-endian, every scalar and array element type, >1024-element arrays, a single-tensor file, two models in one file). " +
 		"A harness-side parser maps every length, count, type tag, dimension count, dimension, tensor kind, offset and well-known numeric value (general.alignment, general.file_type, *.block_count) of each seed (string arrays of more than 8 elements: the lengths of the first 4 and last 2 elements). " +
 		"Enumerated exhaustively: (1) every field x every value of its boundary alphabet; (2) thorough tier: every pair of fields x alphabet x alphabet on the seeds marked pairs, restricted to pairs in which neither single mutation violates by itself (a pair containing a failing single is not a minimal counterexample; the number skipped is reported); " +
-		"(3) every truncation length 0..len-1 of every seed; (4) every byte string of length <=2 (quick) / <=3 (thorough) after each of the two magics; (5) well-known keys re-encoded with a value of every other type; (6) the seeds themselves. " +
+		"(1b) wrap-around sums: on a seed with four I8 tensors, every assignment of {2^61, 2^62, 2^63-32} to the first k-1 of k tensors (k=2..4) with the k-th size the complement that makes data start + sum of sizes congruent to each of {0, 32, data start, file length, 2^63} modulo 2^64; (3) every truncation length 0..len-1 of every seed; (4) every byte string of length <=2 (quick) / <=3 (thorough) after each of the two magics; (5) well-known keys re-encoded with a value of every other type; (6) the seeds themselves. " +
 		"Every input goes through ggml.Decode(r,0) and ggml.Decode(r,-1) with panic capture and TotalAlloc accounting; every input whose decoding raised no violation then goes through llm.LoadModel(blob,0/-1) and the real gin router in-process: POST /api/blobs/:digest, POST /api/create (stream, *.gguf name) and (non-stream, no extension), POST /api/show (plain, verbose), GET /api/tags, GET /api/version as liveness probe. " +
 		"Inputs whose decoding violates would take the process down in the create goroutine; their HTTP path is run for the 2 smallest inputs per decode signature (stage 2). Magic suffixes of length 2 and 3 are decode-only. " +
 		"Non-trivial = distinct (by content) input that differs from its seed and contains a complete header (>=24 bytes), so that the decoder enters the key/value loop.")
@@ -730,6 +730,16 @@ func main() {
 			}
 		}
 	}
+	nWrap := 0
+	for si, s := range seeds {
+		if s.Name == wrapSeedName {
+			for _, rest := range wrapItems(si, s) {
+				push(rest)
+				nWrap++
+			}
+		}
+	}
+	r.Add("wrap_sum_cases", int64(nWrap))
 	nSingles := len(items)
 	for si, s := range seeds {
 		for n := 0; n < len(s.Bytes); n++ {
